@@ -37,3 +37,20 @@ pub async fn probe(world: &World, node: &Node, peer: PeerId, tag: u64, bound: Du
         Err("wrong body".into())
     }
 }
+
+/// Spawn a task that copies a node's peer events into the semantic event log.
+pub fn watch_events(w: &World, node: &Node) {
+    let Ok((mut rx, _)) = node.net.subscribe() else { return };
+    let w = w.clone();
+    let name = format!("n{}", node.idx);
+    tokio::spawn(async move {
+        loop {
+            match rx.recv().await {
+                Ok(anemo::types::PeerEvent::NewPeer(p)) => w.event(format!("{name}:New({})", w.pname(&p))),
+                Ok(anemo::types::PeerEvent::LostPeer(p, r)) => w.event(format!("{name}:Lost({},{r:?})", w.pname(&p))),
+                Err(tokio::sync::broadcast::error::RecvError::Lagged(_)) => w.harness_error("event watcher lagged"),
+                Err(_) => break,
+            }
+        }
+    });
+}
